@@ -11,7 +11,8 @@ AlphaList == <<<<67>>, <<79>>, <<67, 79>>, <<67, 91, 100, 93>>, <<72>>>>
 Alpha == {AlphaList[k] : k \in 1..NAlpha}
 Centres == {<<67>>, <<67, 79>>}
 \* a chunk "(n)" or "(n)c"; x = the count is written
-Chunk == {ch \in [n : Alpha, c : 1..MaxCount, x : BOOLEAN] : ch.c > 1 => ch.x}
+\* (a written count of zero is a spelling too: "(H)0" contributes no peripheral)
+Chunk == {ch \in [n : Alpha, c : 0..MaxCount, x : BOOLEAN] : ch.c # 1 => ch.x}
 ChunkSeqs == UNION {[1..k -> Chunk] : k \in 0..MaxChunks}
 
 RECURSIVE Total(_)
